@@ -133,9 +133,16 @@ type Case struct {
 	Use               bool
 	Toks              []Tok
 	Pattern           string
-	Path              string   // request path, wire form
-	Filling           []string `json:",omitempty"` // values the path was built from (pool i), nil for look-alikes / noise
-	Kind              string   // filling | patterntext | noise
+	Path              string     // request path, wire form
+	Filling           []string   `json:",omitempty"` // values the path was built from (pool i), nil for look-alikes / noise
+	Kind              string     // filling | patterntext | noise
+	Prior             []PriorReq `json:",omitempty"` // requests served by the same app (pooled ctx) before the main one
+}
+
+// PriorReq is an earlier request on the same app; the same oracle applies to it.
+type PriorReq struct {
+	Path    string
+	Filling []string `json:",omitempty"`
 }
 
 type evenC struct{}
@@ -226,101 +233,130 @@ func check(c Case) vk.Verdict {
 	if hit == -1 {
 		return vk.Failf("registering the documented-syntax pattern %q panicked", c.Pattern)
 	}
-	resp := vk.Do(app, "GET", c.Path)
-	status := resp.Response.StatusCode()
+	main := c
+	var total vk.Verdict
+	for i := 0; i <= len(main.Prior); i++ {
+		c := main
+		c.Prior = nil
+		if i < len(main.Prior) {
+			c.Path, c.Filling, c.Kind = main.Prior[i].Path, main.Prior[i].Filling, "filling"
+			if strings.HasPrefix(c.Path, "//") || strings.ContainsAny(c.Path, "?#") || c.Path == "" || c.Path[0] != '/' {
+				continue
+			}
+		}
+		hit = 0
+		v := func() vk.Verdict {
+			resp := vk.Do(app, "GET", c.Path)
+			status := resp.Response.StatusCode()
 
-	var ptoks []Tok
-	constrained := false
-	for _, t := range c.Toks {
-		if t.Kind != "lit" {
-			ptoks = append(ptoks, t)
-			if len(t.Cs) > 0 {
-				constrained = true
+			var ptoks []Tok
+			constrained := false
+			for _, t := range c.Toks {
+				if t.Kind != "lit" {
+					ptoks = append(ptoks, t)
+					if len(t.Cs) > 0 {
+						constrained = true
+					}
+				}
 			}
-		}
-	}
-	v := vk.Verdict{Classes: []string{"kind:" + c.Kind}}
-	ctx := fmt.Sprintf("pattern %q (use=%v cs=%v strict=%v unesc=%v) path %q", c.Pattern, c.Use, c.CS, c.Strict, c.Unesc, c.Path)
+			v := vk.Verdict{Classes: []string{"kind:" + c.Kind}}
+			ctx := fmt.Sprintf("pattern %q (use=%v cs=%v strict=%v unesc=%v) path %q", c.Pattern, c.Use, c.CS, c.Strict, c.Unesc, c.Path)
 
-	if hit == 0 {
-		v.Classes = append(v.Classes, "rejected")
-		if !c.Use && status != 404 {
-			return vk.Failf("%s: handler did not run but status is %d, want the not-found handling (404)", ctx, status)
-		}
-		if c.Kind == "filling" && forcedViolation(c) {
-			v.NonTrivial = true
-			v.Classes = append(v.Classes, "violating-filling-rejected")
-		}
-		return v
-	}
-	v.Classes = append(v.Classes, "ran")
-	if hit > 1 {
-		return vk.Failf("%s: handler ran %d times", ctx, hit)
-	}
-	if routePath != c.Pattern && "/"+routePath != "/"+c.Pattern {
-		// Route().Path is informative only
-		_ = routePath
-	}
-	// (0) a filling whose forced assignment violates a constraint must not reach the handler
-	if c.Kind == "filling" && forcedViolation(c) {
-		return vk.Failf("%s: the only possible assignment %q violates a declared constraint but the handler ran with Params %q", ctx, c.Filling, got)
-	}
-	if len(got) != len(ptoks) {
-		return vk.Failf("%s: %d parameter values for %d parameters", ctx, len(got), len(ptoks))
-	}
-	// (1) reconstruction
-	fold := func(s string) string {
-		if !c.CS {
-			s = strings.ToLower(s)
-		}
-		if !c.Strict && len(s) > 1 {
-			s = strings.TrimRight(s, "/")
-			if s == "" {
-				s = "/"
+			if hit == 0 {
+				v.Classes = append(v.Classes, "rejected")
+				if !c.Use && status != 404 {
+					return vk.Failf("%s: handler did not run but status is %d, want the not-found handling (404)", ctx, status)
+				}
+				if c.Kind == "filling" && forcedViolation(c) {
+					v.NonTrivial = true
+					v.Classes = append(v.Classes, "violating-filling-rejected")
+				}
+				return v
 			}
-		}
-		return s
-	}
-	gp := fold(gotPath)
-	okRec := false
-	recs := acceptableReconstructions(c.Toks, got)
-	for _, r := range recs {
-		fr := fold(r)
-		if fr == gp {
-			okRec = true
-			break
-		}
-		if c.Use && strings.HasPrefix(gp, fr) {
-			okRec = true
-			break
-		}
-	}
-	if !okRec {
-		return vk.Failf("%s: substituting Params %q into the pattern gives %q, which does not reproduce the request path %q", ctx, got, recs, gotPath)
-	}
-	// (2),(3) constraints, emptiness, slashes
-	for i, t := range ptoks {
-		val := got[i]
-		if val == "" && (t.Kind == "named" || t.Kind == "plus") {
-			return vk.Failf("%s: required parameter %s is empty", ctx, t.Name)
-		}
-		if (t.Kind == "named" || t.Kind == "opt") && strings.Contains(val, "/") {
-			return vk.Failf("%s: named parameter %s spans a '/': %q", ctx, t.Name, val)
-		}
-		if val == "" {
-			continue
-		}
-		for _, cs := range t.Cs {
-			if cs.definitelyViolates(val) {
-				return vk.Failf("%s: value %q of %s violates the declared constraint %s but the handler ran", ctx, val, t.Name, cs.src())
+			v.Classes = append(v.Classes, "ran")
+			if hit > 1 {
+				return vk.Failf("%s: handler ran %d times", ctx, hit)
 			}
+			if routePath != c.Pattern && "/"+routePath != "/"+c.Pattern {
+				// Route().Path is informative only
+				_ = routePath
+			}
+			// (0) a filling whose forced assignment violates a constraint must not reach the handler
+			if c.Kind == "filling" && forcedViolation(c) {
+				return vk.Failf("%s: the only possible assignment %q violates a declared constraint but the handler ran with Params %q", ctx, c.Filling, got)
+			}
+			if len(got) != len(ptoks) {
+				return vk.Failf("%s: %d parameter values for %d parameters", ctx, len(got), len(ptoks))
+			}
+			// (1) reconstruction
+			fold := func(s string) string {
+				if !c.CS {
+					s = strings.ToLower(s)
+				}
+				if !c.Strict && len(s) > 1 {
+					s = strings.TrimRight(s, "/")
+					if s == "" {
+						s = "/"
+					}
+				}
+				return s
+			}
+			gp := fold(gotPath)
+			okRec := false
+			recs := acceptableReconstructions(c.Toks, got)
+			for _, r := range recs {
+				fr := fold(r)
+				if fr == gp {
+					okRec = true
+					break
+				}
+				if c.Use && strings.HasPrefix(gp, fr) {
+					okRec = true
+					break
+				}
+			}
+			if !okRec {
+				return vk.Failf("%s: substituting Params %q into the pattern gives %q, which does not reproduce the request path %q", ctx, got, recs, gotPath)
+			}
+			// (2),(3) constraints, emptiness, slashes
+			for i, t := range ptoks {
+				val := got[i]
+				if val == "" && (t.Kind == "named" || t.Kind == "plus") {
+					return vk.Failf("%s: required parameter %s is empty", ctx, t.Name)
+				}
+				if (t.Kind == "named" || t.Kind == "opt") && strings.Contains(val, "/") {
+					return vk.Failf("%s: named parameter %s spans a '/': %q", ctx, t.Name, val)
+				}
+				if val == "" {
+					continue
+				}
+				for _, cs := range t.Cs {
+					if cs.definitelyViolates(val) {
+						return vk.Failf("%s: value %q of %s violates the declared constraint %s but the handler ran", ctx, val, t.Name, cs.src())
+					}
+				}
+			}
+			v.NonTrivial = constrained || c.Kind == "patterntext"
+			if constrained {
+				v.Classes = append(v.Classes, "ran-constrained")
+			}
+			return v
+		}()
+		if v.Fail != "" {
+			if i < len(main.Prior) {
+				v.Fail = fmt.Sprintf("(request %d of %d on one app) %s", i+1, len(main.Prior)+1, v.Fail)
+			} else if len(main.Prior) > 0 {
+				v.Fail = fmt.Sprintf("(after %d earlier requests on the same app: %+v) %s", len(main.Prior), main.Prior, v.Fail)
+			}
+			return v
 		}
+		total.NonTrivial = total.NonTrivial || v.NonTrivial
+		total.Classes = append(total.Classes, v.Classes...)
 	}
-	v.NonTrivial = constrained || c.Kind == "patterntext"
-	if constrained {
-		v.Classes = append(v.Classes, "ran-constrained")
+	if len(main.Prior) > 0 {
+		total.Classes = append(total.Classes, "sequence")
 	}
-	return v
+	return total
 }
 
 // forcedViolation: the path is an exact filling whose segmentation is unique (all parameters named, each followed by
@@ -490,6 +526,64 @@ func genCase(t *rapid.T) Case {
 	if !c.Unesc && strings.Contains(c.Path, "%") {
 		c.Filling = nil // handler sees the encoded text, not the filling
 	}
+	// earlier requests on the same app (the pooled ctx and its buffers are re-used): fillings, often differing from the
+	// main request in a single character of a single value (same length, same offset)
+	if c.Kind == "filling" && c.Filling != nil && rapid.IntRange(0, 2).Draw(t, "prior") == 0 {
+		np := rapid.IntRange(1, 3).Draw(t, "nprior")
+		for k := 0; k < np; k++ {
+			vals := append([]string(nil), c.Filling...)
+			if len(vals) > 0 {
+				j := rapid.IntRange(0, len(vals)-1).Draw(t, "pj")
+				switch rapid.IntRange(0, 2).Draw(t, "pmode") {
+				case 0: // a satisfying value of the same length if one exists
+					tkIdx := -1
+					n := 0
+					for ti, tk := range c.Toks {
+						if tk.Kind != "lit" {
+							if n == j {
+								tkIdx = ti
+							}
+							n++
+						}
+					}
+					for _, cand := range valPool {
+						if len(cand) == len(vals[j]) && cand != vals[j] && cand != "" {
+							ok := true
+							for _, cs := range c.Toks[tkIdx].Cs {
+								if cs.definitelyViolates(cand) {
+									ok = false
+								}
+							}
+							if ok {
+								vals[j] = cand
+								break
+							}
+						}
+					}
+				case 1:
+					vals[j] = satisfying(t, Tok{Kind: "named"})
+				default:
+					vals[j] = rapid.SampledFrom(valPool).Draw(t, "pv")
+				}
+			}
+			var pb strings.Builder
+			vi := 0
+			for _, tk := range c.Toks {
+				if tk.Kind == "lit" {
+					pb.WriteString(tk.Lit)
+				} else {
+					pb.WriteString(vals[vi])
+					vi++
+				}
+			}
+			pp := wireEsc(pb.String())
+			pr := PriorReq{Path: pp, Filling: vals}
+			if !c.Unesc && strings.Contains(pp, "%") {
+				pr.Filling = nil
+			}
+			c.Prior = append(c.Prior, pr)
+		}
+	}
 	return c
 }
 
@@ -501,4 +595,4 @@ var propSound = vk.Register(&vk.Prop[Case]{
 func TestSound(t *testing.T) { propSound.Run(t) }
 
 func classify(c Case, fail string) string { return "" }
-func FuzzSound(f *testing.F) { propSound.Fuzz(f) }
+func FuzzSound(f *testing.F)              { propSound.Fuzz(f) }
